@@ -70,7 +70,7 @@ CHECKS['C05'] = (E1, 'E1-input-config-explorer',
     'DESIGN.md section 4 C05')
 
 CHECKS['C06'] = (E1, 'E1-input-config-explorer',
-    'For collections of n = 1..5 (6) series with pairwise distinct distances (5 families incl. unequal lengths and ndim 2-3) EVERY block ((rb,re),(cb,ce)[,False]) plus None is enumerated; the compact result of the Python engine, '
+    'For collections of n = 1..6 (7) series with pairwise distinct distances (5 families incl. unequal lengths and ndim 2-3) under 5 DTW settings (default, window+penalty, two one-sided psi tuples that make d(a,b) != d(b,a), max_length_diff=1) EVERY block ((rb,re),(cb,ce)[,False]) plus None is enumerated; the compact result of the Python engine, '
     'the Cython route (5 container forms) and the six exported dtw_distances_* routines (exact-size output buffers) must list exactly the reference distances of the selected pairs in row-major order and have the advertised length '
     '(3 length helpers); square and only_triu forms are compared entry by entry; distance_array_index is checked for all a != b.',
     'Trusted: vf/oracles.py distances; the layout reference is a two-line list comprehension. Diagonal of the only_triu square form is not judged.',
@@ -112,14 +112,14 @@ CHECKS['C13'] = (E1 + '; ' + E2, 'E1-input-config-explorer + E2-history-explorer
 CHECKS['C14'] = (E1 + '; ' + E2, 'E1-input-config-explorer + E2-history-explorer',
     'Every candidate list of 1..4 (5) series drawn with repetition from tie-rich pools (so in every order, with duplicates) x window x penalty x psi x every class of max_dist/max_value threshold x use_lb x engine x every k in 1..N+1 and None: '
     'the answer must be exactly the sorted exhaustive reference distances within the threshold (indices up to ties, right count). Every history up to depth 3 (4) over {kbest_matches(1|2|3|None), best_match, align(2), kbest_matches_fast(2), reset} is judged the same way at every step.',
-    'Trusted: vf/oracles.py DTW; thresholds lie in gaps between distinct distances.',
+    'Trusted: vf/oracles.py DTW; thresholds lie in gaps between distinct distances or exactly on a distance that is a small dyadic rational (decided without rounding). Depth-2 histories additionally run on every ordered candidate list of length 3 (4).',
     'DESIGN.md section 4 C14')
 
 E5 = 'exhaustive exploration of all random outcomes through an explorer-owned choice tape (depth-first over the choice tree), virtual worker pool'
 CHECKS['C15'] = (E2 + ' (merge state machine monitored on every transition)', 'E2-history-explorer',
     'The distance function is a stub serving EVERY upper-triangular distance table for n = 2..4 over {1,2,3,inf} and n = 5 over {1,2,inf} (ties, duplicates, infinite entries) x 4 max_dist values x {none, weight, order, both} hooks; '
     'each merge transition is checked through the public merge_hook (two live prototypes, distance = current minimum over live pairs, non-decreasing, <= max_dist) and the final state is checked to be a partition keyed by contained prototypes with no two prototypes within max_dist; '
-    'HierarchicalTree well-formedness (n-1 rows, every node a child once), repeated fits, LinkageTree == scipy linkage, and real dtw.distance_matrix (Python/C) on all small collections.',
+    'HierarchicalTree well-formedness (n-1 rows, every node a child once; also wrapped around a model whose weight hook chooses the prototype), repeated fits, fit histories with a changed max_dist on the real distance function, LinkageTree == scipy linkage, and real dtw.distance_matrix (Python/C) on all small collections.',
     'Trusted: the monitor invariants are a transcription of C15; tie-breaking order is not prescribed and not compared.',
     'DESIGN.md section 4 C15')
 CHECKS['C16'] = (E5, 'E5-choice-tape-explorer',
@@ -136,14 +136,14 @@ CHECKS['C12'] = (E1, 'E1-input-config-explorer',
     'DESIGN.md section 4 C12')
 CHECKS['C18'] = (E1 + '; ' + E2, 'E1-input-config-explorer + E2-history-explorer',
     'All series pairs up to length 3 (4) x gamma x tau x delta x delta_factor x penalty{None,0,.1} x window x only_triu: the Python matrix, the C full matrix and the C compact array expanded/sliced (every slice on a quarter of the pairs) must equal a literal transcription of the recurrence cell by cell (-inf where excluded). '
-    'LocalConcurrences histories up to depth 3 (4) over two interleaved iterators (k, minlen, buffer, restart), kbest_matches_store(keep T/F) and reset, for Python, C full and C compact: every match is a contiguous monotone path through cells that are positive in the reference matrix, ends in its reported maximum, and shares no cell with an earlier match of the same un-restarted history.',
+    'LocalConcurrences histories up to depth 3 (4) over two interleaved iterators (k, minlen, buffer, restart), kbest_matches_store(keep T/F) and reset, for Python, C full and C compact: every match is a contiguous monotone path through cells that are positive in the reference matrix, ends in its reported maximum, and shares no cell with an earlier match of the same un-restarted history; after every restart the first match / the stored matches must equal what a fresh object returns.',
     'Trusted: math.exp transcription (1e-12). psi-relaxation and the returned scalar of the affinity routines are not described by C18.',
     'DESIGN.md section 4 C18')
 
 CHECKS['C20'] = (E1 + '; ' + E2, 'E1-input-config-explorer + E2-history-explorer',
-    'A catalogue of 25 pair-level and 14 collection-level routines (both engines) is called on every combination of container representations of its series arguments (list, tuple, array.array, ndarray contiguous/strided/reversed/row/Fortran/transposed/read-only; '
+    'A catalogue of 25 pair-level and 14 collection-level routines (both engines) is called on every combination of container representations of its series arguments (list, tuple, array.array, ndarray contiguous/strided/reversed/row/Fortran-ordered slice/transposed view/exactly F-contiguous/read-only; '
     'list and tuple of arrays, strided rows, SeriesContainer, 2-D/3-D arrays in C, strided and Fortran order). Every array lives inside a larger poisoned buffer and each call is made with two poison values: inputs and guard zones must be byte-identical afterwards, '
-    'the result must not depend on the poison, must repeat, and must equal the result on the canonical container. Histories: every sequence up to depth 3 of 13 routines sharing the same series objects must reproduce the isolated results. The NumPy-free routines are re-run in a NumPy-less interpreter.',
+    'the result must not depend on the poison, must repeat, and must equal the result on the canonical container. Histories: every sequence up to depth 3 of 13 routines sharing the same series objects, and every sequence up to depth 3 of the operations of one shared model object (SubsequenceSearch, SubsequenceAlignment, LocalConcurrences, Hierarchical/HierarchicalTree, KMeans with a fixed seed) or of consumers of one shared settings dictionary, must reproduce what a fresh object answers. The NumPy-free routines are re-run in a NumPy-less interpreter.',
     'Trusted: byte images of the buffers. Lists into *_fast entry points and read-only arrays into the C engine are outside C20\'s container list (documented requirement) and not generated.',
     'DESIGN.md section 4 C20')
 
